@@ -44,6 +44,8 @@ func (c *Ctx) regionInit(name string, gen int) string {
 			sort_ = "Bool"
 		} else if name == "$tpos" {
 			sort_ = "Int"
+		} else if name == "$held" {
+			sort_ = "Bool"
 		} else {
 			panic(fmt.Sprintf("internal: unknown region %s", name))
 		}
@@ -70,6 +72,9 @@ func (c *Ctx) regionSort(name string) string {
 	if name == "$tpos" {
 		return "Int"
 	}
+	if name == "$held" {
+		return "Bool"
+	}
 	return c.regions[name]
 }
 
@@ -90,8 +95,10 @@ func (c *Ctx) havocAll(s *State) {
 	old := c.alloc(s)
 	ghost := c.region(s, "$wfault")
 	tp := c.region(s, "$tpos")
+	held := c.region(s, "$held")
 	defer func() {
 		s.cells["$wfault"] = Val{S: ghost}
+		s.cells["$held"] = Val{S: held} // code outside the package cannot touch the package's own mutex
 		// unknown code may have read from the input: the tape cursor only moves forward
 		c.havocTpos(s, tp)
 	}()
